@@ -89,6 +89,22 @@ Theorem surfer_stationary_is_pagerank (g : wgraph) (alpha : Q) (y p : vec) :
 Proof. exact (stationary_is_pagerank g alpha y p). Qed.
 Print Assumptions surfer_stationary_is_pagerank.
 
+(** Power iteration as coded (n_iter steps from x; early exit when two successive iterates are closer
+    than tol, returning the OLDER one): for a non-negative restart distribution the distance to the
+    stationary distribution p of the surfer (= the PageRank vector, previous theorem) never grows, and it
+    ends below alpha^n_iter times the initial distance or below tol / (1 - alpha). *)
+Theorem piteration_error (g : wgraph) (alpha : Q) (y : list Q) (p : vec) (n_iter : nat) (tol : Q) (x : list Q) :
+  good_graph g -> (0 <= alpha < 1)%Q -> length x = length g ->
+  (forall j, j < length g -> (0 <= V y j)%Q) -> (vsum (length g) (V y) == 1)%Q ->
+  (vsum (length g) (V x) == 1)%Q ->
+  is_stationary (length g) (surfer_kernel (P g) (has_out g) alpha (V y)) p ->
+  let r := piteration_loop n_iter (surfer_matvec g alpha y) tol x in
+  let e0 := norm1 (length g) (fun j => V x j - p j)%Q in
+  let e := norm1 (length g) (fun j => V r j - p j)%Q in
+  (vsum (length g) (V r) == 1)%Q /\ (e <= e0)%Q /\ ((e <= apow alpha n_iter * e0)%Q \/ (e <= tol / (1 - alpha))%Q).
+Proof. exact (piteration_error_proof g alpha y p n_iter tol x). Qed.
+Print Assumptions piteration_error.
+
 (** Regression witness (defect D2, repaired): the operator as it was before the repair,
     b = (1 - alpha out) * y elementwise and b * sum(x), has on the graph 0 -> 1 with uniform restart and
     alpha = 4/7 the normalised fixed point x = (1/4, 3/4), whereas the PageRank vector is (7/18, 11/18)
